@@ -503,6 +503,9 @@ where
                                     let ctid = self.ctid.to_owned(); // CAN plugin checks for that apid as well!
                                     let mut payload: Vec<u8> =
                                         SERVICE_ID_GET_LOG_INFO.to_ne_bytes().into();
+                                    // the description needs to fit into a DLT msg (u16 len). So we limit it:
+                                    let name_desc = &name.as_bytes()
+                                        [..std::cmp::min(name.len(), u16::MAX as usize - 256)];
                                     let apid_buf = apid.as_buf();
                                     payload.extend(
                                         [7u8]
@@ -510,8 +513,8 @@ where
                                             .chain(1u16.to_ne_bytes().into_iter()) // 1 app id, CAN plugin expects == 1
                                             .chain(apid_buf.iter().copied())
                                             .chain(0u16.to_ne_bytes().into_iter()) // 0 ctx ids
-                                            .chain((name.len() as u16).to_ne_bytes().into_iter()) // len of apid desc
-                                            .chain(name.as_bytes().iter().copied()),
+                                            .chain((name_desc.len() as u16).to_ne_bytes().into_iter()) // len of apid desc
+                                            .chain(name_desc.iter().copied()),
                                     );
                                     // return a DltMessage with the LOG INFO APID incl. the BusMapping name
                                     let index = self.index;
